@@ -411,7 +411,8 @@ namespace pl
         Rng rng(seed);
         // direction-dependent spaces: half of the worlds are cluttered with many small discs and have a small turning radius (a
         // curve and its reverse then differ in validity far more often, which is what exposes direction mix-ups)
-        const bool clutter = (kind == K_DUBINS || kind == K_RS) && fixedObst < 0 && rng.coin(0.5);
+        // (fixedObst == -2 forces the cluttered variant)
+        const bool clutter = (kind == K_DUBINS || kind == K_RS) && fixedObst < 0 && (rng.coin(0.5) || fixedObst == -2);
         auto w = makeSpace(kind, rng, clutter);
         w->hash = seed;
         w->si = std::make_shared<ob::SpaceInformation>(w->space);
